@@ -173,9 +173,9 @@ theorem stepBody_store (env : VEnv) (st : Store) (rec : Go.Rec) (stack0 : List N
 theorem get?_map (st : Store) (f : Node → Node) (i : NodeId) : Store.get? (st.map f) i = (Store.get? st i).map f := by
   simp [Store.get?]
 
-/-- **decoration invariance**: rewriting every schema object by an `f` that leaves the read fields alone does not
-    change any result (verdict, annotations, panic, fuel) of the evaluator -/
-theorem validateFuel_map (env : VEnv) (f : Node → Node) (hf : PreservesReads f) : ∀ fuel stack i s,
+/-- rewriting every schema object by an `f` that one call cannot tell from the identity changes no result -/
+theorem validateFuel_map_of (env : VEnv) (f : Node → Node)
+    (hf : ∀ rec stack i s n, stepBody env rec stack i s (f n) = stepBody env rec stack i s n) : ∀ fuel stack i s,
     validateFuel { env with st := env.st.map f } fuel stack i s = validateFuel env fuel stack i s := by
   intro fuel
   induction fuel with
@@ -195,7 +195,13 @@ theorem validateFuel_map (env : VEnv) (f : Node → Node) (hf : PreservesReads f
     | some n =>
       show stepBody { env with st := env.st.map f } (validateFuel env k) stack i s (f n) = stepBody env _ stack i s n
       rw [stepBody_store]
-      exact stepBody_congr env _ stack i s (f n) n (hf n)
+      exact hf _ stack i s n
+
+/-- **decoration invariance**: rewriting every schema object by an `f` that leaves the read fields alone does not
+    change any result (verdict, annotations, panic, fuel) of the evaluator -/
+theorem validateFuel_map (env : VEnv) (f : Node → Node) (hf : PreservesReads f) : ∀ fuel stack i s,
+    validateFuel { env with st := env.st.map f } fuel stack i s = validateFuel env fuel stack i s :=
+  validateFuel_map_of env f (fun rec stack i s n => stepBody_congr env rec stack i s (f n) n (hf n))
 
 /-- the same for the entry point, when `$schema` is preserved too -/
 theorem validate_map (env : VEnv) (f : Node → Node) (hf : PreservesReads f) (hs : ∀ n, (f n).schema = n.schema)
